@@ -121,6 +121,10 @@ def main():
                 op = getattr(cola, an)(op)
             op._ref_dense = a
             ref = a
+        elif kind == "TriangularInv":
+            from cola.linalg.inverse.inv import TriangularInv
+            op = TriangularInv(concrete_operator("Triangular", c, rng))
+            ref = reference_dense(op)
         else:
             c.setdefault("square", kind in ("KronSum",))
             op = concrete_operator(kind, c, rng)
